@@ -178,3 +178,59 @@ def reduce_sum(state, action, next_state, reward_functions, rng):
     ensures('sum', lambda: result() == ghost_result(reward_functions[0], 0) + ghost_result(reward_functions[1], 0)
             + ghost_result(reward_functions[2], 0))
     pure(state, action, next_state, rng, s0, n0)
+
+
+DIJ = 'gym_gridverse.envs.reward_functions:dijkstra'
+
+
+def is_layout_of(layout, grid):
+    """layout[y][x] tells whether the cell can be walked on in *this* grid"""
+    return (len(layout) == grid.shape.height and forall_int(0, grid.shape.height, lambda y: (
+        len(layout[y]) == grid.shape.width and forall_int(0, grid.shape.width, lambda x: (
+            layout[y][x] == (not grid[Position(y, x)].blocks_movement))))))
+
+
+@contract(target=RF + 'getting_closer_shortest_path',
+          args=dict(SAN, object_type='Class', reward_closer='float', reward_further='float', rng='Rng',
+                    c1='Position', c2='Position'),
+          kwonly=['object_type', 'reward_closer', 'reward_further', 'rng'], ghost=['c1', 'c2'],
+          stubs={DIJ: ('native-real', 'RealArr')}, props=['C01', 'C03', 'C12'])
+def getting_closer_shortest_path(state, action, next_state, object_type, reward_closer, reward_further, rng, c1, c2):
+    requires(unique_cell(state.grid, object_type, c1) and unique_cell(next_state.grid, object_type, c2))
+    requires(in_grid(state.grid, state.agent.position) and in_grid(next_state.grid, next_state.agent.position))
+    s0 = old(state)
+    n0 = old(next_state)
+    # dijkstra (numpy BFS, checked by a bounded stand-in) returns a table of the layout's shape
+    stub_assume(DIJ, lambda table, layout, source: symbolic() and table.shape == (len(layout), len(layout[0])))
+    ensures('total', lambda: returned())
+    ensures('each-distance-is-measured-in-its-own-state', lambda: not symbolic() or (
+        ghost_calls(DIJ) == 2
+        and is_layout_of(ghost_arg(DIJ, 0, 0), s0.grid) and ghost_arg(DIJ, 0, 1) == (c1.y, c1.x)
+        and is_layout_of(ghost_arg(DIJ, 1, 0), n0.grid) and ghost_arg(DIJ, 1, 1) == (c2.y, c2.x)))
+    def d_prev():
+        return ghost_result(DIJ, 0)[s0.agent.position.y, s0.agent.position.x]
+    def d_next():
+        return ghost_result(DIJ, 1)[n0.agent.position.y, n0.agent.position.x]
+    ensures('sign-of-change', lambda: not symbolic() or (returned() and result() == (
+        reward_closer if d_next() < d_prev() else (reward_further if d_next() > d_prev() else 0.0))))
+    # natively: the same statement against an independent breadth-first search
+    ensures_native('sign-of-change-against-bfs', lambda: returned() and result() == (
+        reward_closer if bfs(n0, c2) < bfs(s0, c1) else (reward_further if bfs(n0, c2) > bfs(s0, c1) else 0.0)))
+    pure(state, action, next_state, rng, s0, n0)
+
+
+def bfs(state, target):
+    """walking distance from the agent to `target` in this state's own layout (inf if unreachable)"""
+    from collections import deque
+    g = state.grid
+    dist = {(target.y, target.x): 0}
+    q = deque([(target.y, target.x)])
+    while q:
+        y, x = q.popleft()
+        for dy, dx in ((-1, 0), (1, 0), (0, -1), (0, 1)):
+            ny, nx = y + dy, x + dx
+            if 0 <= ny < g.shape.height and 0 <= nx < g.shape.width and (ny, nx) not in dist \
+                    and not g[Position(ny, nx)].blocks_movement:
+                dist[(ny, nx)] = dist[(y, x)] + 1
+                q.append((ny, nx))
+    return dist.get((state.agent.position.y, state.agent.position.x), float('inf'))
